@@ -12,7 +12,7 @@ mutation events (`mkdir P`, `mktemp D/*`, `write P n`, `rename P Q`, ...).
 Only the standard library is used.  Nothing in the parser raises on strange strace output; lines
 that cannot be understood are collected in `TraceResult.unparsed`.
 """
-import os, re, sys, shutil, signal, subprocess, itertools
+import os, re, sys, shutil, signal, subprocess, itertools, time
 from dataclasses import dataclass, field
 
 if __package__ in (None, ""):                      # run as a script: python3 lib/vf/trace.py
@@ -626,8 +626,21 @@ def _ops_text(ops):
     return ops if ops.endswith("\n") or not ops else ops + "\n"
 
 
+def _wait_stopped(pid, deadline):
+    while time.time() < deadline:
+        try:
+            with open(f"/proc/{pid}/stat") as fh:
+                st = fh.read().rsplit(")", 1)[1].split()[0]
+        except OSError:
+            return False
+        if st in ("T", "t"):
+            return True
+        time.sleep(0.002)
+    return False
+
+
 def run_traced(flavour, ops, scratch=None, inject=None, timeout=120, keep=False, reuse=False,
-               extra_trace=(), env_extra=None):
+               extra_trace=(), env_extra=None, attach=None):
     """Run `ops` (text or list of lines) on the `flavour` build under strace.
 
     scratch   directory to use (removed first unless reuse=True); default: a fresh one below
@@ -651,15 +664,44 @@ def run_traced(flavour, ops, scratch=None, inject=None, timeout=120, keep=False,
     cmd = ["strace", "-f", "-y", "-s", "64", "-o", log, "-e", "trace=" + ",".join(names)]
     for inj in ([inject] if isinstance(inject, str) else list(inject or [])):
         cmd += ["-e", inj if inj.startswith(("inject=", "fault=")) else "inject=" + inj]
-    cmd += [C.drive_bin(flavour), d]
     env = dict(os.environ, DRIVE_MARK="1")
     env.pop("DRIVE_REUSE", None)
     if reuse:
         env["DRIVE_REUSE"] = "1"
     env.update(env_extra or {})
+    if attach is None:
+        # worker-mode runs (the fault / kill legs) are traced from AFTER the process start-up: strace counts
+        # `when=N` per thread and per system call from the moment it traces, and the loader's and runtime's own
+        # openat / read / stat calls on the main thread would otherwise use up the first few N of every sweep
+        attach = env.get("DRIVE_WORKER") == "1" and os.environ.get("VERIF_ATTACH", "0") == "1"
     timed_out = False
-    p = subprocess.Popen(cmd, stdin=subprocess.PIPE, stdout=subprocess.PIPE, stderr=subprocess.PIPE,
-                         cwd=root, env=env, start_new_session=True)
+    st = None
+    if attach:
+        env["DRIVE_ATTACH"] = "1"
+        p = subprocess.Popen([C.drive_bin(flavour), d], stdin=subprocess.PIPE, stdout=subprocess.PIPE,
+                             stderr=subprocess.PIPE, cwd=root, env=env, start_new_session=True)
+        if _wait_stopped(p.pid, time.time() + 20):
+            st = subprocess.Popen(cmd + ["-p", str(p.pid)], stdout=subprocess.DEVNULL, stderr=subprocess.PIPE, cwd=root)
+            # strace says "Process <pid> attached" once it holds the (still stopped) process
+            t_end = time.time() + 20
+            buf = b""
+            os.set_blocking(st.stderr.fileno(), False)
+            while time.time() < t_end and b"attached" not in buf and st.poll() is None:
+                try:
+                    chunk = st.stderr.read()
+                except OSError:
+                    chunk = None
+                if chunk:
+                    buf += chunk
+                else:
+                    time.sleep(0.002)
+        try:
+            os.kill(p.pid, signal.SIGCONT)
+        except OSError:
+            pass
+    else:
+        p = subprocess.Popen(cmd + [C.drive_bin(flavour), d], stdin=subprocess.PIPE, stdout=subprocess.PIPE,
+                             stderr=subprocess.PIPE, cwd=root, env=env, start_new_session=True)
     try:
         out, err = p.communicate(_ops_text(ops).encode(), timeout=timeout)
     except subprocess.TimeoutExpired:
@@ -670,11 +712,17 @@ def run_traced(flavour, ops, scratch=None, inject=None, timeout=120, keep=False,
             pass
         out, err = p.communicate()
     rc = p.returncode
+    if st is not None:
+        try:
+            st.wait(timeout=20)
+        except subprocess.TimeoutExpired:
+            st.kill(); st.wait()
     impl = out.decode(errors="replace").splitlines()
     if timed_out:
         impl.append("hang")
 
-    ps = parse_log(log, real, os.path.realpath(root))
+    # an attached tracer has not seen the harness chdir into its scratch directory
+    ps = parse_log(log, real, real if attach and st is not None else os.path.realpath(root))
     unfinished = ps.finish()
     killed = ps.killed_sig is not None or (rc < 0 and not timed_out)
     if ps.killed_sig is not None:
